@@ -2,10 +2,13 @@ package grpcjson
 
 import (
 	"context"
+	"encoding/json"
 	"errors"
+	"strconv"
 	"strings"
 	"sync"
 
+	jsoniter "github.com/json-iterator/go"
 	"github.com/spf13/afero"
 	ammo "github.com/yandex/pandora/components/providers/grpc"
 	"github.com/yandex/pandora/core"
@@ -48,6 +51,72 @@ type jEntry struct {
 var jLines map[string]*jEntry
 
 func vStub_github_com_json_iterator_go_Unmarshal(data []byte, v interface{}) error {
+	return jUnmarshal(data, v, false)
+}
+
+// a configuration of the library frozen by pandora (jsoniter.Config{...}.Froze()): the same model,
+// told whether numbers are kept as written (UseNumber) or turned into float64
+type jAPI struct {
+	jsoniter.API
+	useNumber bool
+}
+
+func (a *jAPI) Unmarshal(data []byte, v interface{}) error { return jUnmarshal(data, v, a.useNumber) }
+
+func vStub__github_com_json_iterator_go_Config__Froze(cfg jsoniter.Config) jsoniter.API {
+	return &jAPI{useNumber: cfg.UseNumber}
+}
+
+// numeric payloads (HarnessC20NumericPayload): the document's number lands in an interface{} target as
+// a float64 - the nearest double, ties to even: exact below 2^53, a multiple of 2 below 2^54 - unless
+// the configuration keeps numbers as written (json.Number)
+var jNum struct {
+	active  bool
+	n       int64
+	rounded int64
+}
+
+func jRoundToDouble(n int64) int64 {
+	if n < 1<<53 {
+		return n
+	}
+	switch n % 4 {
+	case 1:
+		return n - 1
+	case 3:
+		return n + 1
+	}
+	return n
+}
+
+// encoding/json.Marshal of the one-field numeric payload: a float64 that holds an integer below 1e21
+// is printed as that integer, a json.Number as its text
+func vStub_encoding_json_Marshal(v any) ([]byte, error) {
+	mp := v.(map[string]interface{})
+	switch x := mp["n"].(type) {
+	case float64:
+		return []byte(`{"n":` + strconv.FormatInt(jNum.rounded, 10) + `}`), nil
+	case json.Number:
+		return []byte(`{"n":` + string(x) + `}`), nil
+	}
+	return nil, errors.New("json: unsupported value in this harness")
+}
+
+func jUnmarshal(data []byte, v interface{}, useNumber bool) error {
+	if jNum.active {
+		am := v.(*ammo.Ammo)
+		am.Tag, am.Call = "t", "p.S.A"
+		if am.Payload == nil {
+			am.Payload = map[string]interface{}{}
+		}
+		if useNumber {
+			am.Payload["n"] = json.Number(strconv.FormatInt(jNum.n, 10))
+		} else {
+			jNum.rounded = jRoundToDouble(jNum.n)
+			am.Payload["n"] = float64(jNum.rounded)
+		}
+		return nil
+	}
 	e := jLines[string(data)]
 	if e == nil || e.bad {
 		return errors.New("jsoniter: syntax error")
@@ -184,5 +253,30 @@ func HarnessC20GrpcJSONEntries() {
 	vCheck("J3.every.line.every.pass", got == E*passes)
 	vCheck("J3.run.ok", runErr == nil)
 	vObserve("got", int64(got))
+	vReach("end")
+}
+
+
+// ---- C20: an integer payload field reaches the message as written. The entry's line carries
+// `"payload":{"n":N}` with N any integer below 2^54 (int64 ids, timestamps in ns); the provider decodes
+// the line (decodeAmmo) and the gun hands json.Marshal(payload) to the message's UnmarshalJSON: that text
+// is `{"n":N}` with the digits of the line. Symbolically jsoniter and encoding/json are the contract
+// stubs above (a number decoded into interface{} becomes the nearest float64 unless the configuration
+// keeps numbers as written); natively the real libraries parse and print.
+func HarnessC20NumericPayload() {
+	n := vNondetInt("n", 0, 1<<54-1)
+	jNum.active, jNum.n = true, n
+	defer func() { jNum.active = false }()
+	digits := strconv.FormatInt(n, 10)
+	line := `{"tag":"t","call":"p.S.A","payload":{"n":` + digits + `}}`
+	am, err := decodeAmmo([]byte(line), &ammo.Ammo{})
+	vCheck("W6.numeric.line.accepted", err == nil)
+	if err != nil {
+		return
+	}
+	js, err := json.Marshal(am.Payload)
+	vCheck("W6.payload.marshals", err == nil)
+	vCheck("W6.integer.payload.as.written", string(js) == `{"n":`+digits+`}`)
+	vObserve("len", int64(len(js)))
 	vReach("end")
 }
